@@ -208,7 +208,7 @@ func workerMain() {
 	var hashes []string
 	rl := newRaceLog()
 	for run := *fFrom; run < *fTo; run++ {
-		c := generate(*fProp, runSeedFor(*fSeed, *fProp, run), run)
+		c := generateTier(*fProp, runSeedFor(*fSeed, *fProp, run), run, *fTier)
 		c.Seed, c.Tier = *fSeed, *fTier
 		orig := c.clone()
 		cr := check(c)
@@ -840,7 +840,14 @@ func replayMain(path string) int {
 	}
 	rc := 0
 	abs, _ := filepath.Abs(path)
+	known := loadKnown(*fKnown)
 	for _, v := range viols {
+		if v.Class != "race" {
+			if k := matchKnown(known, v, classifyCounterfactual(&c, v)); k != nil {
+				fmt.Printf("KNOWN-FINDING: property=%s %s: %s\n", c.Prop, k.ID, k.What)
+				continue
+			}
+		}
 		match := ""
 		if c.Expect != nil && c.Expect.Class == v.Class {
 			match = " (matches the recorded violation)"
